@@ -54,7 +54,7 @@ def main():
     skipped = 0
     unspecified = 0
     for name in names:
-        for level in range(-1, 18):
+        for level in [-100, -2] + list(range(-1, 18)):
             for mode in range(0, 26):
                 for wk in range(7):   # 0 none, 1 valid, 2 inverted, 3 above the kinematic range, 4 lower bound only, 5 upper bound only, 6 lower bound only above the range
                     if wk == 0:
@@ -144,7 +144,7 @@ def main():
     chk.coverage.update({
         "evaluations": seen,
         "distinct_nontrivial": len(cellstate),
-        "rule": "grid = (51 isotopes + 4 unknown/mis-cased names) x levels -1..17 x modes 0..25 x {no window, valid, inverted, lower-bound-only, upper-bound-only, above the kinematic "
+        "rule": "grid = (51 isotopes + 4 unknown/mis-cased names) x levels -100, -2, -1..17 x modes 0..25 x {no window, valid, inverted, lower-bound-only, upper-bound-only, above the kinematic "
                 "range}; each cell is configured through decay0_generator and initialised; verdict compared with an executable model of the stated rules "
                 "(tables parsed from the reference source; gA datasets synthesised); accepted cells shoot 20 events through the C04 monitor, rejected "
                 "cells must not shoot; every request is also put to one long-lived generator object per process (reset between requests) and must get the same verdict; distinct = distinct (mode, window kind, model verdict, generator verdict) classes observed",
